@@ -496,6 +496,17 @@ func (e *verifC29) checkRefusedWroteNothing(cl *verifClient, p []string) {
 	d, bad, skipped := verifModelDiff(o, cl.view, cl.taints, root)
 	if !skipped && bad {
 		mv, mf, _ := verifGetAt(cl.view, d)
+		if !verifRelated(d, p) {
+			// not the doing of the refused write
+			cls := "C29/read-own-write"
+			if !e.related(cl.writes, d) {
+				cls = "C29/isolation"
+			} else if !mf {
+				cls = "C29/null-not-removed"
+			}
+			e.c.Violate(cls, "client %d reads %s for %s; differs at %s from snapshot+own writes, which has %s there", cl.id, o, verifPathStr(root), verifPathStr(d), verifShow(mv, mf))
+			return
+		}
 		e.c.Violate("C29/refused-set-wrote", "after the refused write to %s client %d reads %s for the snap; differs at %s from snapshot+accepted writes (%s)", verifPathStr(p), cl.id, o, verifPathStr(d), verifShow(mv, mf))
 	}
 }
@@ -1011,7 +1022,11 @@ func verifRunC29(c *verifsim.Ctx) {
 	nclients := 2 + c.Draw("clients", 3)
 	e.snaps = []string{"s1", "s2"}[:1+c.Draw("snaps", 2)]
 	e.faults = c.Draw("faults", 4) != 0
-	nops := c.Draw("nops", 90)
+	maxOps := 90
+	if c.Tier == "thorough" {
+		maxOps = 240
+	}
+	nops := c.Draw("nops", maxOps)
 	c.Logf("config: clients=%d snaps=%v faults=%v ops=%d", nclients, e.snaps, e.faults, nops)
 
 	e.st.Lock()
